@@ -8,6 +8,8 @@ spec: SchedOps.tla       state of a scheduler under item-changing transformation
       Gen_SchedOps       TLC-side sampling of (project, configuration, history) + the graph nodes the model predicts
       Trace_SchedOps     validation of the states recorded from the real scheduler after every step (invariants + documented
                          effect of each operation + C22 walk of a later probe + gfortran link of the written sources)
+      Trace_SchedIgnore  kernels referring to an IGNORED module function (inline) / subroutine (CALL) under dep: the item's
+                         ignore / block lists follow the rename, no external or dead graph nodes, later processing works
 Real objects: loki.batch.Scheduler.process(DependencyTransformation | ModuleWrapTransformation | DuplicateKernel |
 RemoveKernel) in sequence on rendered projects, state projected from the IR (harness/lib_sched.observe_ops_state).
 """
@@ -87,6 +89,88 @@ def replay(project, config, hist, root, iface, layout_seed=None, keep=False, def
 
 # --------------------------------------------------------------------------------------------
 # histories for seeded (larger) projects
+
+# --------------------------------------------------------------------------------------------
+# ignored dependencies under dep: an inline-referenced module FUNCTION / a CALLed subroutine on the kernel's ignore list
+# (functions are outside the abstract project format: these small projects are written directly)
+
+def ignore_cases(rng, n):
+    out = []
+    for i in range(n):
+        out.append({'kind': 'ignore', 'ign': 'fn' if i % 2 == 0 else 'sub', 'rii': i % 4 < 3 if i % 8 < 6 else False,
+                    'sfx': rng.choice(['_test', '_x']), 'msfx': rng.choice(['', '_mod']), 'f': rng.choice(['f', 'helper', 'g1']),
+                    'where': rng.choice(['routine', 'routine', 'default']), 'twice': rng.random() < 0.4,
+                    'other': rng.random() < 0.5})      # the kernel also calls a subroutine that is NOT ignored
+    return out
+
+
+def run_ignore_case(case, root):
+    """Render, build the scheduler, process DependencyTransformation, then a probe; returns the trace case."""
+    from loki import FindNodes, FindInlineCalls, ir
+    from loki.batch import FileItem
+    from loki.transformations.build_system import DependencyTransformation
+    shutil.rmtree(root, ignore_errors=True)
+    os.makedirs(root)
+    f, fn = case['f'], case['ign'] == 'fn'
+
+    def w(name, text):
+        with open(os.path.join(root, name), 'w') as fh:
+            fh.write(text)
+    if fn:
+        w(f'{f}_mod.f90', f"module {f}_mod\ncontains\n  function {f}(x) result(y)\n    integer, intent(in) :: x\n    integer :: y\n    y = x + 1\n"
+                          f"  end function {f}\nend module {f}_mod\n")
+        ref = f"    a = {f}(a)\n" + (f"    a = a + {f}(a)\n" if case['twice'] else '')
+    else:
+        w(f'{f}_mod.f90', f"module {f}_mod\ncontains\n  subroutine {f}(x)\n    integer, intent(inout) :: x\n    x = x + 1\n  end subroutine {f}\nend module {f}_mod\n")
+        ref = f"    call {f}(a)\n" * (2 if case['twice'] else 1)
+    other_use = "    use o_mod, only: other\n" if case['other'] else ''
+    if case['other']:
+        w('o_mod.f90', "module o_mod\ncontains\n  subroutine other(x)\n    integer, intent(inout) :: x\n    x = x + 2\n  end subroutine other\nend module o_mod\n")
+        ref += "    call other(a)\n"
+    w('k_mod.f90', f"module k_mod\ncontains\n  subroutine kernel(a)\n    use {f}_mod, only: {f}\n{other_use}    integer, intent(inout) :: a\n{ref}"
+                   "  end subroutine kernel\nend module k_mod\n")
+    w('driver.f90', "subroutine driver(a)\n  use k_mod, only: kernel\n  integer, intent(inout) :: a\n  call kernel(a)\nend subroutine driver\n")
+    default = {'mode': 'idem', 'role': 'kernel', 'expand': True, 'strict': True, 'enable_imports': True}
+    routines = {'driver': {'role': 'driver'}}
+    if case['where'] == 'default':
+        default['ignore'] = [f]
+    else:
+        routines['kernel'] = {'ignore': [f]}
+    t = {'sfx': case['sfx'], 'before': {'ignore': [], 'block': []}, 'after': {'ignore': [], 'block': [], 'refs': [], 'nodes': []},
+         'raised1': '', 'raised2': ''}
+    L._quiet()   # pylint: disable=protected-access
+    try:
+        from loki.batch import Scheduler, SchedulerConfig
+        sched = Scheduler(paths=[root], config=SchedulerConfig.from_dict({'default': default, 'routines': routines}), seed_routines=['driver'])
+        k = sched['k_mod#kernel']
+        t['before'] = {'ignore': [str(x).lower() for x in k.ignore], 'block': [str(x).lower() for x in k.block]}
+        sched.process(DependencyTransformation(suffix=case['sfx'], module_suffix=case['msfx'] or None, replace_ignore_items=case['rii']))
+        k = next(i for i in sched.items if i.local_name.startswith('kernel'))
+        r = k.ir
+        refs = [str(c.name).lower() for c in FindNodes(ir.CallStatement).visit(r.body)] + [str(c.name).lower() for c in FindInlineCalls().visit(r.body)]
+        nodes = []
+        for it in sched.items:
+            try:
+                live = it.ir is not None
+            except Exception:  # pylint: disable=broad-except
+                live = False
+            nodes.append({'name': it.name.lower(), 'kind': L.KINDS.get(type(it).__name__, type(it).__name__), 'live': bool(live)})
+        t['after'] = {'ignore': [str(x).lower() for x in k.ignore], 'block': [str(x).lower() for x in k.block],
+                      'refs': sorted(set(refs)), 'nodes': nodes}
+    except Exception as e:  # pylint: disable=broad-except
+        t['raised1'] = f'{type(e.__cause__ or e).__name__}: {str(e)[:160]}'
+        return t
+    try:
+        sched.process(C22.make_probe(PROBE))
+    except Exception as e:  # pylint: disable=broad-except
+        t['raised2'] = f'{type(e.__cause__ or e).__name__}: {str(e)[:160]}'
+    shutil.rmtree(root, ignore_errors=True)
+    return t
+
+
+def ignore_key(case, clause):
+    return f"{clause}:op=dep:ign={case['ign']}:rii={int(case['rii'])}:where={case['where']}:msfx={int(bool(case['msfx']))}"
+
 
 def with_seed_entries(rng, C):
     """Seeds that are kernels (no routine entry yet) get an own `routines` entry without overrides in most cases: renaming
@@ -199,7 +283,9 @@ def run(ctx):
         runs.append(({'P': P, 'C': C, 'hist': hist, 'iface': iface, 'origin': origin, 'modelled': modelled, 'layout': layout, 'mvi': mvi},
                      {'P0': L.tla_project(P), 'C0': C, 'hist': hist, 'steps': steps, 'final': final, 'modelled': modelled}))
 
-    if ctx.replay:
+    if ctx.replay and ctx.replay['case'].get('kind') == 'ignore':
+        pass
+    elif ctx.replay:
         c = ctx.replay['case']
         add(L.normalize_project(c['P']), L.normalize_config(c['C']), c['hist'], c['iface'], 'replay', c.get('modelled', False), c.get('layout'), c.get('mvi', False))
     else:
@@ -227,6 +313,12 @@ def run(ctx):
             if hist:
                 add(P, C, hist, True, 'seeded', False, layout=ctx.seed * 31 + i if i % 2 else None)
         ctx.cover['cases'] = {'tlc_modelled': ntlc, 'seeded': len(runs) - ntlc}
+    # ---- 3b. ignored dependencies (inline FUNCTION references / CALLed subroutines) under dep, then further processing
+    if ctx.replay and ctx.replay['case'].get('kind') == 'ignore':
+        icases = [ctx.replay['case']]
+    else:
+        icases = [] if ctx.replay else ignore_cases(ctx.rng, 24 if quick else 96)
+    iruns = [(c, run_ignore_case(c, os.path.join(ctx.work, f'ig{n}'))) for n, c in enumerate(icases)]
     phases['generate_and_run_loki'] = round(ctx.elapsed() - sum(phases.values()), 1)
     # gfortran jobs in threads (Loki itself is driven serially)
     import concurrent.futures as cf
@@ -289,12 +381,28 @@ def run(ctx):
                 f'{"after the history (later processing / write / link)" if at_final else f"after step {pos} ({opname})"}; origin {case["origin"]}; '
                 f'{t["steps"][min(pos, len(t["steps"]) - 1)]["raised"]} {t["final"]["link"] if clause == "link" else ""}')
         ctx.violation(key, what, {k: v for k, v in case.items() if k != 'origin'})
+    if iruns:
+        iv = ctx.validate('Trace_SchedIgnore', 'Trace_SchedIgnore', [t for _, t in iruns], shards=1)
+        nren = {'fn': 0, 'sub': 0}
+        for i, (case, t) in enumerate(iruns):
+            ok, clause, renamed = iv[i]
+            clauses[clause if clause != 'ok' else 'ign-ok'] = clauses.get(clause if clause != 'ok' else 'ign-ok', 0) + 1
+            nren[case['ign']] += renamed > 0
+            if not ok:
+                ctx.violation(ignore_key(case, clause),
+                              f'kernel referring to the ignored {"function (inline)" if case["ign"] == "fn" else "subroutine (CALL)"} `{case["f"]}` under '
+                              f'DependencyTransformation(suffix={case["sfx"]!r}, replace_ignore_items={case["rii"]}): clause `{clause}` of '
+                              f'Trace_SchedIgnore; before {t["before"]}, after ignore {t["after"]["ignore"]} block {t["after"]["block"]} refs '
+                              f'{t["after"]["refs"]} nodes {[(n["name"], n["kind"]) for n in t["after"]["nodes"]]}; {t["raised1"]} {t["raised2"]}', case)
+        ctx.cover['ignored_dependency_cases_with_renamed_reference'] = nren
+        if not ctx.replay and min(nren.values()) < (6 if quick else 24):
+            raise MachineryError(f'vacuity: only {nren} ignored-dependency cases in which the reference was renamed')
     ctx.cover['clauses'] = clauses
     ctx.cover['histories'] = hists
     ctx.cover['operations_replayed'] = ops_seen
     ctx.cover['states_accepted'] = steps_ok
     ctx.cover['model_agreement_steps(modelled universe)'] = f'{agree[0]}/{agree[1]}'
-    for idx in (0, len(runs) // 2, len(runs) - 1):
+    for idx in ((0, len(runs) // 2, len(runs) - 1) if runs else ()):
         case, t = runs[idx]
         ctx.sample({'origin': case['origin'], 'hist': hist_sig(case['hist']), 'nodes_after': [[n['name'] for n in s['nodes']] for s in t['steps']][-1][:8],
                     'link': t['final']['link'][:60]})
